@@ -70,6 +70,15 @@ def queries(tier):
                         env=["env_alloc.c", "env_misc.c", "env_sync.c", "env_aio.c", "env_msg.c", "env_pipe.c", "env_idmap.c", "env_libc.c"],
                         defs={"OP": 0, "NB": nb, "FROM": 0, "FAILMSG": 1, "COPYMAX": copymax}, cdefs=["-DENV_MSG_CAP=24"], unwind=30, timeout=300, group="~c11/udp_rx.c#fail",
                         params={"entry_point": "udp_rx_cb / udp_recv_data", "failing_allocation": "the message for the payload (copy and loan paths)"}))
+    # stream transport listeners: resource exhaustion in the accept path (stream accept or pipe allocation) costs one connection, not the listener
+    from props import C14
+    for q in C14.tran_listener_queries(tier):
+        if "CM" in q.name or "CF" in q.name or "CP" in q.name:
+            q.group = "~" + q.group + "#c20"
+            qs.append(q)
+    for q in C14.inproc_ep_queries(tier):
+        if "failpair" in q.name:
+            qs.append(q)
     # HTTP head parser: the connection object's setters fail with NNG_ENOMEM (the parser itself allocates nothing)
     HREQ = ["GET /a HTTP/1.1\r\nK: v\r\n\r\n", None, None, "A /b HTTP/2\r\nK: v\r\nL: w\r\n\r\n"]
     for nm, ti, extra in (("req-header1", 0, {"FAILHDR": 1}), ("req-header1of2", 3, {"FAILHDR": 1}), ("req-header2of2", 3, {"FAILHDR": 2}), ("req-uri", 0, {"FAILURI": 1}),
